@@ -1,7 +1,7 @@
 (* C05 property theorems.  Statements + exact + Print Assumptions only.
    M = the node-vector trie of Model.v (what zipora calls Patricia storage), S = a duplicate-free list of keys. *)
 From ZV.Common Require Import Base Run.
-From ZV.C05 Require Import Model Spec ProofsBase ProofsInsert ProofsRemove ProofsRefine.
+From ZV.C05 Require Import Model Spec ProofsBase ProofsInsert ProofsRemove ProofsRefine ProofsKeys ProofsLouds ProofsSpec.
 Open Scope N_scope.
 
 (* ptrie_refines_set: for EVERY history of insert / remove / contains / len / accepts / longest_prefix calls
@@ -84,3 +84,90 @@ Theorem walk_injective : forall ns addr k1 k2 e, inv ns addr -> walk ns 0%nat k1
 Proof. exact walk_inj. Qed.
 Check walk_injective : forall ns addr k1 k2 e, inv ns addr -> walk ns 0%nat k1 = Some e -> walk ns 0%nat k2 = Some e -> k1 = k2.
 Print Assumptions walk_injective.
+
+(* the executable spec used in fsa_agrees is: the longest prefix of q that is a member, None if there is none *)
+Theorem s_longest_prefix_spec : forall S q,
+  match s_longest_prefix S q with
+  | Some m => exists n, m = N.of_nat n /\ (n <= length q)%nat /\ mem (firstn n q) S = true /\
+                        forall n', (n < n' <= length q)%nat -> mem (firstn n' q) S = false
+  | None => forall n', (n' <= length q)%nat -> mem (firstn n' q) S = false
+  end.
+Proof. exact s_longest_prefix_spec_proof. Qed.
+Check s_longest_prefix_spec : forall S q,
+  match s_longest_prefix S q with
+  | Some m => exists n, m = N.of_nat n /\ (n <= length q)%nat /\ mem (firstn n q) S = true /\
+                        forall n', (n < n' <= length q)%nat -> mem (firstn n' q) S = false
+  | None => forall n', (n' <= length q)%nat -> mem (firstn n' q) S = false
+  end.
+Print Assumptions s_longest_prefix_spec.
+
+(* keys_sorted_complete, as an enumeration (the property fixes no order): keys() lists exactly the members ... *)
+Theorem keys_enumerates : forall st S k, Rel st S -> (In k (keys_nodes (p_nodes st)) <-> In k S).
+Proof. exact keys_enumerates_proof. Qed.
+Check keys_enumerates : forall st S k, Rel st S -> (In k (keys_nodes (p_nodes st)) <-> In k S).
+Print Assumptions keys_enumerates.
+
+(* ... each exactly once (for any node vector) *)
+Theorem keys_no_duplicates : forall ns, NoDup (keys_nodes ns).
+Proof. exact keys_nodup_proof. Qed.
+Check keys_no_duplicates : forall ns, NoDup (keys_nodes ns).
+Print Assumptions keys_no_duplicates.
+
+(* keys_with_prefix(p) lists exactly the members that start with p ... *)
+Theorem prefix_query_exact : forall st S p k, Rel st S -> (In k (prefix_nodes (p_nodes st) p) <-> In k S /\ exists k2, k = p ++ k2).
+Proof. exact prefix_query_exact_proof. Qed.
+Check prefix_query_exact : forall st S p k, Rel st S -> (In k (prefix_nodes (p_nodes st) p) <-> In k S /\ exists k2, k = p ++ k2).
+Print Assumptions prefix_query_exact.
+
+(* ... each exactly once *)
+Theorem prefix_no_duplicates : forall ns p, NoDup (prefix_nodes ns p).
+Proof. exact prefix_nodup_proof. Qed.
+Check prefix_no_duplicates : forall ns p, NoDup (prefix_nodes ns p).
+Print Assumptions prefix_no_duplicates.
+
+(* the DFS fuel of the model (number of nodes + 1) always suffices: a key that leads to a node is shorter than the node count *)
+Theorem walk_depth_bound : forall ns addr k e, inv ns addr -> (0 < length ns)%nat -> walk ns 0%nat k = Some e -> (length k < length ns)%nat.
+Proof. exact walk_depth. Qed.
+Check walk_depth_bound : forall ns addr k e, inv ns addr -> (0 < length ns)%nat -> walk ns 0%nat k = Some e -> (length k < length ns)%nat.
+Print Assumptions walk_depth_bound.
+
+(* LOUDS / space-optimised storage as written (flat [len][bytes] records): insert (keys up to 255 bytes) / contains / len refine the set, for every history *)
+Theorem louds_refines_set : forall ops, Forall louds_op_ok ops -> l_run (mkL [] 0) ops = s_run [] ops.
+Proof. exact louds_refines_set_proof. Qed.
+Check louds_refines_set : forall ops, Forall louds_op_ok ops -> l_run (mkL [] 0) ops = s_run [] ops.
+Print Assumptions louds_refines_set.
+
+(* compressed-sparse storage (same trie, remove is a no-op): every history without remove refines the set *)
+Theorem sparse_refines_set : forall ops, Forall (fun op => op_ok op /\ fst op <> 1) ops -> p_run false p_empty ops = s_run [] ops.
+Proof. exact sparse_refines_set_proof. Qed.
+Check sparse_refines_set : forall ops, Forall (fun op => op_ok op /\ fst op <> 1) ops -> p_run false p_empty ops = s_run [] ops.
+Print Assumptions sparse_refines_set.
+
+(* recorded findings, as refutations on the faithful models: remove is a no-op outside the Patricia storage *)
+Theorem sparse_remove_refuted : exists ops, Forall op_ok ops /\ p_run false p_empty ops <> s_run [] ops.
+Proof. exact sparse_remove_refuted_proof. Qed.
+Check sparse_remove_refuted : exists ops, Forall op_ok ops /\ p_run false p_empty ops <> s_run [] ops.
+Print Assumptions sparse_remove_refuted.
+
+Theorem louds_remove_refuted : exists ops, Forall op_ok ops /\ l_run (mkL [] 0) ops <> s_run [] ops.
+Proof. exact louds_remove_refuted_proof. Qed.
+Check louds_remove_refuted : exists ops, Forall op_ok ops /\ l_run (mkL [] 0) ops <> s_run [] ops.
+Print Assumptions louds_remove_refuted.
+
+(* the LOUDS automaton view is a stub *)
+Theorem louds_fsa_refuted : exists ops, Forall op_ok ops /\ l_run (mkL [] 0) ops <> s_run [] ops.
+Proof. exact louds_fsa_refuted_proof. Qed.
+Check louds_fsa_refuted : exists ops, Forall op_ok ops /\ l_run (mkL [] 0) ops <> s_run [] ops.
+Print Assumptions louds_fsa_refuted.
+
+(* LOUDS refuses keys longer than 255 bytes *)
+Theorem louds_long_key_refuted : exists k, bytes_ok k /\ nlen k = 256 /\ l_run (mkL [] 0) [(0, k); (2, k)] <> s_run [] [(0, k); (2, k)].
+Proof. exact louds_long_key_refuted_proof. Qed.
+Check louds_long_key_refuted : exists k, bytes_ok k /\ nlen k = 256 /\ l_run (mkL [] 0) [(0, k); (2, k)] <> s_run [] [(0, k); (2, k)].
+Print Assumptions louds_long_key_refuted.
+
+(* the critical-bit storage is a stub *)
+Theorem critbit_stub_refuted : exists ops, Forall op_ok ops /\ c_run 0 ops <> s_run [] ops.
+Proof. exact critbit_stub_refuted_proof. Qed.
+Check critbit_stub_refuted : exists ops, Forall op_ok ops /\ c_run 0 ops <> s_run [] ops.
+Print Assumptions critbit_stub_refuted.
